@@ -34,10 +34,11 @@ open TRV TRV.Wire TRV.Drv TRV.Spec TRV.Proofs TRV.Engine
 theorem c02_icmp4_te_view {s : IcmpSt} {pkt : Bytes} {h : IP4} {i : ICMP4} {info : ICMPInfo} {t : Nat} {p : Sent}
     (hne : pkt ≠ []) (hp : parse (pkt.take bufSize) = some (.v4 h, .icmp4 i)) (hty : i.type = 11)
     (hi : icmpInfo4 i = some info) (hd : info.qdst = s.cfg.target) (hs : info.qsrc = s.cfg.localA)
+    (hpr : info.proto = 1)
     (he : parseEcho4 info.payload = some (s.cfg.echoId, t)) (hl : icmpLookup s t = some p) :
     icmpRecv s pkt = .accept t h.src false p.time := by
   unfold icmpRecv
-  simp [isEmpty_false_of_ne hne, hne, hp, hty, hi, hd, hs, he, hl, L3.src]
+  simp [isEmpty_false_of_ne hne, hne, hp, hty, hi, hd, hs, hpr, he, hl, L3.src]
 
 /-- ICMP/IPv4 echo reply from the target -/
 theorem c02_icmp4_echo_view {s : IcmpSt} {pkt : Bytes} {h : IP4} {i : ICMP4} {p : Sent}
@@ -51,13 +52,13 @@ theorem c02_icmp4_echo_view {s : IcmpSt} {pkt : Bytes} {h : IP4} {i : ICMP4} {p 
     ignores the quoted source, strict mode needs it to be the probe's own -/
 theorem c02_udp4_view {s : UdpSt} {pkt : Bytes} {h : IP4} {i : ICMP4} {info : ICMPInfo} {sp dp : Nat} {p : Sent}
     (hne : pkt ≠ []) (hp : parse (pkt.take bufSize) = some (.v4 h, .icmp4 i))
-    (hty : (i.type = 11 ∧ i.code = 0) ∨ i.type = 3) (hi : icmpInfo4 i = some info)
+    (hty : (i.type = 11 ∧ i.code = 0) ∨ i.type = 3) (hi : icmpInfo4 i = some info) (hpr : info.proto = 17)
     (hq : quotedPorts info.payload = some (sp, dp)) (hd : info.qdst = s.cfg.target ∧ dp = s.cfg.tport)
     (hs : s.cfg.loosen = true ∨ (info.qsrc = s.cfg.localA ∧ sp = s.cfg.lport))
     (hf : s.sent.find? (·.id = info.wrappedId) = some p) :
     udpRecv s pkt = .accept p.ttl h.src (decide (h.src = s.cfg.target)) p.time := by
   unfold udpRecv
-  simp only [isEmpty_false_of_ne hne, hne, hp, hty, hi, hq, hd, hf, L3.src, Bool.false_eq_true, if_false, if_true]
+  simp only [isEmpty_false_of_ne hne, hne, hp, hty, hi, hpr, hq, hd, hf, L3.src, Bool.false_eq_true, if_false, if_true]
   rcases hs with hs | hs
   · simp [hs]; try rfl
   · simp [hs]; try rfl
@@ -65,14 +66,14 @@ theorem c02_udp4_view {s : UdpSt} {pkt : Bytes} {h : IP4} {i : ICMP4} {info : IC
 /-- TCP SYN: time-exceeded quoting the (IP id, sequence number) of a sent probe -/
 theorem c02_tcp_te_view {s : TcpSt} {pkt : Bytes} {h : IP4} {i : ICMP4} {info : ICMPInfo} {sp dp sq : Nat} {p : Sent}
     (hne : pkt ≠ []) (hp : parse (pkt.take bufSize) = some (.v4 h, .icmp4 i))
-    (hty : i.type = 11 ∧ i.code = 0) (hi : icmpInfo4 i = some info)
+    (hty : i.type = 11 ∧ i.code = 0) (hi : icmpInfo4 i = some info) (hpr : info.proto = 6)
     (hq : quotedPorts info.payload = some (sp, dp)) (hsq : quotedSeq info.payload = some sq)
     (hd : info.qdst = s.cfg.target ∧ dp = s.cfg.tport)
     (hs : s.cfg.loosen = true ∨ (info.qsrc = s.cfg.localA ∧ sp = s.cfg.lport))
     (hf : s.sent.find? (fun x => x.id = info.wrappedId ∧ x.seq = sq) = some p) :
     tcpRecv s pkt = .accept p.ttl h.src false p.time := by
   unfold tcpRecv
-  simp only [isEmpty_false_of_ne hne, hne, hp, hty, hi, hq, hsq, hd, hf, L3.src, Bool.false_eq_true, if_false, if_true]
+  simp only [isEmpty_false_of_ne hne, hne, hp, hty, hi, hpr, hq, hsq, hd, hf, L3.src, Bool.false_eq_true, if_false, if_true]
   rcases hs with hs | hs
   · simp [hs]; try rfl
   · simp [hs]; try rfl
@@ -102,7 +103,7 @@ theorem c02_sack_direct_view {s : SackSt} {pkt : Bytes} {h : IP4} {t : TCP} {rel
 /-- SACK: time-exceeded quoting sequence number ISN + t; strict mode compares the QUOTED source -/
 theorem c02_sack_te_view {s : SackSt} {pkt : Bytes} {h : IP4} {i : ICMP4} {info : ICMPInfo} {sp dp sq : Nat} {p : Sent}
     (hne : pkt ≠ []) (hp : parse (pkt.take bufSize) = some (.v4 h, .icmp4 i))
-    (hty : i.type = 11 ∧ i.code = 0) (hi : icmpInfo4 i = some info)
+    (hty : i.type = 11 ∧ i.code = 0) (hi : icmpInfo4 i = some info) (hpr : info.proto = 6)
     (hq : quotedPorts info.payload = some (sp, dp)) (hsq : quotedSeq info.payload = some sq)
     (hd : info.qdst = s.cfg.target ∧ dp = s.cfg.tport)
     (hs : s.cfg.loosen = true ∨ (info.qsrc = s.cfg.localA ∧ sp = s.cfg.lport))
@@ -110,7 +111,7 @@ theorem c02_sack_te_view {s : SackSt} {pkt : Bytes} {h : IP4} {i : ICMP4} {info 
     sackRecv s pkt = .accept ((sq + 4294967296 - s.cfg.isn % 4294967296) % 4294967296) h.src
       (decide (h.src = s.cfg.target)) p.time := by
   unfold sackRecv
-  simp only [isEmpty_false_of_ne hne, hne, hp, hty, hi, hq, hsq, hd, hl, L3.src, Bool.false_eq_true, if_false, if_true]
+  simp only [isEmpty_false_of_ne hne, hne, hp, hty, hi, hpr, hq, hsq, hd, hl, L3.src, Bool.false_eq_true, if_false, if_true]
   rcases hs with hs | hs
   · simp [hs]; try rfl
   · simp [hs]; try rfl
